@@ -11,7 +11,7 @@ from __future__ import annotations
 from .. import nf
 from ..model import AnalysisError
 from ..values import Num
-from .common import FP, only, run
+from .common import FP, only, returns, run
 from .multiphase import P_, PHI, SO, SW, mobility, storage
 
 LEVEL = "other"
@@ -26,6 +26,16 @@ def _step_atoms(p):
             if nf.is_const(d):
                 out.setdefault(nf.cval(d), set()).add(a)
     return out
+
+
+def _it_nf(v):
+    from ..values import Num as _Num, Vec as _Vec
+
+    if isinstance(v, _Num):
+        return v.nf
+    if isinstance(v, _Vec):
+        return v.gen
+    return {}
 
 
 def check(ctx):
@@ -79,7 +89,24 @@ def check(ctx):
     # ---- C16-d mobility
     ql = FP + "lambda_combined_func"
     fl = P.func(ql)
-    L = only(run(ctx, ql), ql, ctx, "C16-d").value
+    lpaths = run(ctx, ql, log_divisions=True)
+    L = only(lpaths, ql, ctx, "C16-d").value
+    # no division by a quantity that vanishes for an immobile phase or an absent component: the mobility divides by
+    # viscosities and formation volume factors only (x / lambda_oil * lambda_oil is 0 / 0, not x, where oil does not move)
+    bad_den = []
+    for p_ in returns(lpaths):
+        for e in p_.events:
+            if e.kind != "div":
+                continue
+            d = _it_nf(e.data["den"])
+            txt = nf.show(d, 4000)
+            if nf.depends(d, "So") or any(k in txt for k in ("'kro'", "'krg'", "'krw'", "'Rs'", "'Rv'", "kr,", "(kr")):
+                bad_den.append(f"line {e.line}: / {nf.show(d, 80)}")
+    ctx.check(
+        not bad_den, "C16-d", ql + ":denominators", fl.where(),
+        "the mobility divides by viscosities and formation volume factors only - never by a relative permeability, a solution ratio or a mobility, which vanish for an immobile phase / an absent component",
+        signature="vanishing denominator " + "; ".join(sorted(set(bad_den)))[:140], denominators=sorted(set(bad_den))[:4],
+    )
     ctx.identity(
         "C16-d", ql + ":return", fl.where(),
         "total mobility == rho_o(Rv krg/(mu_g Bg) + kro/(mu_o Bo)) + rho_g(Rs kro/(mu_o Bo) + krg/(mu_g Bg)) + rho_w krw/(mu_w Bw)",
@@ -104,7 +131,7 @@ def check(ctx):
     # table interpolators that from_table hands to it must therefore *extrapolate* beyond the end rows - a clamped
     # lookup halves the difference at the first and last row of every tabulated alpha
     from ..values import ClassV, ExtObj, StrV
-    from .common import interp, returns
+    from .common import interp
 
     qf = FP + "FlowPropertiesTwoPhase.from_table"
     ff = P.func(qf)
